@@ -23,8 +23,8 @@ RULE = ("Leg M/R: TLC enumerates every transaction of the structural families of
         "distinct = distinct (kind, mutation tag, verdict, sorted failing-rule set) of model cases + distinct (kind, ok, fmt, error "
         "variant, #inputs, #outputs, source tag) of trace events; a case is non-trivial when it has at least one input or is a Mint")
 
-PROPERTIES_WIP = ['C19']
-MANIFEST_WIP = {
+PROPERTIES = ['C19']
+MANIFEST = {
     'C19': dict(category='model_checking',
                 technique='TLA+ specification of the transaction validity rules and the sufficient-balance rule (Validity.tla: one named '
                           'predicate per rule, exact BigNat balances) evaluated by TLC; TLC-enumerated small transactions and all single '
